@@ -35,7 +35,19 @@ class Mode(enum.Enum):
     SLOW = 'slow'
 
 
-ENUMS = {'Color': Color, 'Mode': Mode}
+class Level(enum.IntEnum):
+    """An enum with an int mix-in: its members are ints as well."""
+    LOW = 1
+    HIGH = 2
+
+
+class Kind(enum.StrEnum):
+    """An enum with a str mix-in: its members are strs as well."""
+    IRIS = 'iris'
+    WINE = 'wine'
+
+
+ENUMS = {'Color': Color, 'Mode': Mode, 'Level': Level, 'Kind': Kind}
 
 
 # ---------------------------------------------------------------- canon
@@ -215,21 +227,27 @@ def ctx_view(context) -> tuple:
 
 # ---------------------------------------------------------------- JSON cache
 
-class JsonCache(BaseCache):
-    """A second cache format sharing the storage with PickleCache."""
+class Formats:
+    """Namespace: the cache class below is a *nested* class (its __qualname__ differs from its __name__)."""
 
-    KEY_PREFIX = 'json__'
-    RESULT_FILENAME = 'data.json'
+    class Json(BaseCache):
+        """A second cache format sharing the storage with PickleCache."""
 
-    def save_result(self, storage, task, result):
-        data_file = storage.file_handle(task.cache_key, self.RESULT_FILENAME, mode='w')
-        with data_file:
-            json.dump(result.to_json(), data_file)
+        KEY_PREFIX = 'json__'
+        RESULT_FILENAME = 'data.json'
 
-    def load_result(self, storage, task):
-        data_file = storage.file_handle(task.cache_key, self.RESULT_FILENAME, mode='r')
-        with data_file:
-            return Value.from_json(json.load(data_file))
+        def save_result(self, storage, task, result):
+            data_file = storage.file_handle(task.cache_key, self.RESULT_FILENAME, mode='w')
+            with data_file:
+                json.dump(result.to_json(), data_file)
+
+        def load_result(self, storage, task):
+            data_file = storage.file_handle(task.cache_key, self.RESULT_FILENAME, mode='r')
+            with data_file:
+                return Value.from_json(json.load(data_file))
+
+
+JsonCache = Formats.Json
 
 
 # ---------------------------------------------------------------- run body
